@@ -305,7 +305,28 @@ Definition g_move_static_pinned : guard := fun P s =>
   | _ => true
   end.
 
-Inductive rule := RUndefine | RPointless | RDeleteUnused | RSelfCls | RMoveStatic | RDuplicate | RAlign.
+(* fixes.delete_unreachable_code (with hunt=C07-0 repaired): the module body is not a visited scope; a
+   statement of a class body that follows a blocking statement is kept when it defines a member whose
+   bare name or `Class.member` key is preserved (fixes._defines_preserved_member) *)
+Definition g_unreachable : guard := fun P s =>
+  match s with
+  | SDef _ _ => true
+  | SClass _ _ => true
+  | SVar _ => true
+  | SMDef c _ f _ => mem f P || mem (dotted c f) P
+  | SMClass c _ n => mem n P || mem (dotted c n) P
+  | SMVar c _ n => mem n P || mem (dotted c n) P
+  end.
+(* the pinned rule: no preserve parameter, every member after a blocking statement may go *)
+Definition g_unreachable_pinned : guard := fun _ s =>
+  match s with
+  | SMDef _ _ _ _ => false
+  | SMClass _ _ _ => false
+  | SMVar _ _ _ => false
+  | _ => true
+  end.
+
+Inductive rule := RUndefine | RPointless | RDeleteUnused | RSelfCls | RMoveStatic | RDuplicate | RAlign | RUnreachable.
 Definition rule_guard (r : rule) : guard :=
   match r with
   | RUndefine => g_undefine
@@ -315,6 +336,7 @@ Definition rule_guard (r : rule) : guard :=
   | RMoveStatic => g_move_static
   | RDuplicate => g_duplicate
   | RAlign => g_align
+  | RUnreachable => g_unreachable
   end.
 
 (* ---------------------------------------------------------------------------------------------- *)
@@ -432,7 +454,9 @@ Definition key_member (P : list name) (c f : name) : bool :=
 
 Inductive occ :=
 | OName (n : name)                          (* an ast.Name anywhere in the file *)
-| OAttr (base : option name) (a : name).    (* an ast.Attribute; base = Some b when its value is the Name b *)
+| OAttr (base : option name) (a : name)     (* an ast.Attribute; base = Some b when its value is the Name b *)
+| OKeyword (a : name)                       (* keyword.arg of a call / a MatchClass keyword pattern (hunt C08-3) *)
+| OSubMember (n : name).                    (* a member defined in the body of a class WITH bases (hunt C08-4) *)
 
 Record import_alias := { i_from : bool; i_name : name; i_as : option name }.
 Record pyfile := { f_imports : list import_alias; f_occs : list occ }.
@@ -441,13 +465,27 @@ Record pyfile := { f_imports : list import_alias; f_occs : list occ }.
 Definition imported_names (f : pyfile) : list name :=
   map (fun a => match i_as a with Some x => x | None => i_name a end) (f_imports f).
 
-(* main._used_names_in_file (with F08-1 and F08-4) *)
+(* obj._Class__name is the outside spelling of the private member __name: every suffix of the attribute
+   that starts with "__" at index >= 2 and has at least 3 characters (hunt C08-6;
+   `attr[i:] for i in range(2, len(attr) - 2) if attr.startswith("__", i)`) *)
+Fixpoint dunder_suffixes (i : nat) (s : string) : list string :=
+  match s with
+  | EmptyString => []
+  | String _ tl => (if Nat.leb 2 i && prefix "__" s && Nat.leb 3 (String.length s) then [s] else [])
+                   ++ dunder_suffixes (S i) tl
+  end.
+Definition unmangled (a : name) : list name := if prefix "_" a then dunder_suffixes 0 a else [].
+
+(* main._used_names_in_file (with F08-1, F08-4 and the round-4 repairs) *)
 Definition from_names (f : pyfile) : list name :=
-  flat_map (fun a => if i_from a && negb (String.eqb (i_name a) "*") then [i_name a] else []) (f_imports f).
+  flat_map (fun a => if i_from a then [if String.eqb (i_name a) "*" then "__all__" else i_name a] else [])
+           (f_imports f).
 Definition occ_names (imp : list name) (oc : occ) : list name :=
   match oc with
   | OName n => if mem n imp || mem "*" imp then [n] else []
-  | OAttr b a => a :: match b with Some x => if mem x imp then [x] else [] | None => [] end
+  | OAttr b a => a :: unmangled a ++ match b with Some x => if mem x imp then [x] else [] | None => [] end
+  | OKeyword a => [a]
+  | OSubMember n => [n]
   end.
 Definition used_names (f : pyfile) : list name :=
   from_names f ++ flat_map (occ_names (imported_names f)) (f_occs f).
@@ -457,6 +495,7 @@ Definition occ_names_pinned (imp : list name) (oc : occ) : list name :=
   match oc with
   | OName n => if mem n imp then [n] else []
   | OAttr b a => a :: match b with Some x => if mem x imp then [x] else [] | None => [] end
+  | _ => []
   end.
 Definition used_names_pinned (f : pyfile) : list name :=
   flat_map (occ_names_pinned (imported_names f)) (f_occs f).
